@@ -88,9 +88,11 @@ U('C12', 'C12_project.cpp', defines=dict(DIM=3, NB=2, SB=3, MEMSZ2=32), unwind=1
 
 # ---- C13 BLAS adaptor, call-contract level (recorded Fortran calls + address-map oracle); a rejection (exception / assertion) is an allowed outcome
 BLAS_STUBS = [r'_ZNSt7__cxx1112basic_string', r'_ZNSt11logic_error', r'_ZNSt13runtime_error', r'_ZSt.*to_string', r'_ZNSt9exception', r'vsnprintf', r'_ZNKSt', r'_ZStplI', r'_ZSt9terminatev__', r'__cxa_guard', r'_ZNSt8ios_base', r'__cxa_atexit', r'_ZNSo', r'_ZSt4cerr', r'_ZSt16__ostream_insert', r'_ZNSt6locale', r'_ZSt4endl', r'_ZNSt9basic_ios', r'_ZNKSt5ctype', r'_ZSt16__throw_bad_castv']
+# herk rejects the layouts it cannot express by `assert(0)` (the property allows rejection by assertion in assertion-enabled builds)
+HERK_REJECT = [r'^LIBASSERT boost/multi/adaptors/blas/herk\.hpp:\d+: 0$']
 KF13 = {'gemm_unit_l%d' % l: 'C13-gemm-unit-extent' for l in range(8)}
-U('C13', 'C13_blas.cpp', defines=dict(NB=2, PAD=2), unwind=6, timeout=1800, heap=1024, stubs=BLAS_STUBS, objbits=12, inline=400, slots=2, kf=KF13)
-U('C13', 'C13_blas.cpp', defines=dict(NB=3, PAD=2), unwind=6, timeout=3600, heap=1024, stubs=BLAS_STUBS, objbits=12, inline=400, slots=3, kf=KF13, tier='thorough')
+U('C13', 'C13_blas.cpp', defines=dict(NB=2, PAD=2), unwind=6, timeout=1800, heap=1024, stubs=BLAS_STUBS, objbits=12, inline=400, slots=2, kf=KF13, reject=HERK_REJECT)
+U('C13', 'C13_blas.cpp', defines=dict(NB=3, PAD=2), unwind=6, timeout=3600, heap=1024, stubs=BLAS_STUBS, objbits=12, inline=400, slots=3, kf=KF13, tier='thorough', reject=HERK_REJECT)
 
 # ---- C15 FFTW adaptor, call-contract level (recorded guru plan)
 FFTW_STUBS = [r'fftw_cleanup', r'fftw_cost', r'fftw_flops', r'fftw_init_threads', r'fftw_plan_with_nthreads', r'fftw_make_planner_thread_safe', r'fftw_cleanup_threads', r'_ZNSt8ios_base', r'__cxa_atexit', r'__cxa_guard', r'omp_get', r'_ZNSt6thread', r'sysconf', r'_ZNSt7__cxx11', r'_ZNSt11logic_error', r'_ZNSt13runtime_error', r'_ZSt.*to_string']
@@ -104,7 +106,7 @@ MPI_STUBS = [r'_ZNSt8ios_base', r'__cxa_atexit', r'_ZNSt7__cxx11', r'_ZNSt11logi
 for d in (1, 2, 3):
     U('C18', 'C18_mpi.cpp', defines=dict(DIM=d, NB=3, SB=4 if d < 3 else 3, MEMSZ2=40), unwind=6, timeout=1200, heap=256, stubs=MPI_STUBS, native_libs=MPI_LIBS, cflags=['-I/usr/lib/x86_64-linux-gnu/openmpi/include'])
 U('C18', 'C18_mpi.cpp', name='C18_mpi_double_DIM2', defines=dict(DIM=2, NB=3, SB=4, MEMSZ2=40, ELEM='double'), unwind=6, timeout=1200, heap=256, stubs=MPI_STUBS, native_libs=MPI_LIBS, cflags=['-I/usr/lib/x86_64-linux-gnu/openmpi/include'])
-U('C18', 'C18_mpi.cpp', defines=dict(DIM=4, NB=2, SB=3, MEMSZ2=48), unwind=7, timeout=3600, heap=256, stubs=MPI_STUBS, native_libs=MPI_LIBS, cflags=['-I/usr/lib/x86_64-linux-gnu/openmpi/include'], tier='thorough')
+U('C18', 'C18_mpi.cpp', defines=dict(DIM=4, NB=2, SB=3, MEMSZ2=48), unwind=14, timeout=3600, heap=256, stubs=MPI_STUBS, native_libs=MPI_LIBS, cflags=['-I/usr/lib/x86_64-linux-gnu/openmpi/include'], tier='thorough')
 
 # ---- C14 LAPACK adaptor, call-contract level
 LAPACK_STUBS = [r'_ZNSt7__cxx11', r'_ZNSt13runtime_error', r'_ZNSt11logic_error', r'_ZSt.*to_string', r'vsnprintf', r'_ZNSt8ios_base', r'__cxa_atexit', r'_ZStplI', r'_ZNKSt', r'_ZN9__gnu_cxx', r'_ZNSt9exception']
